@@ -1,6 +1,7 @@
 package props
 
 import (
+	"bytes"
 	stdjson "encoding/json"
 	"fmt"
 	"math"
@@ -51,6 +52,17 @@ type ptrRecv struct{ S string }
 
 func (p *ptrRecv) MarshalJSON() ([]byte, error) { return []byte(strconv.Quote("ptr:" + p.S)), nil }
 
+// fork-only marshaler interfaces (no counterpart in encoding/json): a value that
+// redirects to another value must encode exactly like that value, and a trusted
+// marshaler's bytes must appear verbatim.
+type redirV struct{ V any }
+
+func (r redirV) RedirectMarshalJSON() (any, error) { return r.V, nil }
+
+type trustV struct{ Raw []byte }
+
+func (t trustV) TrustMarshalJSON(b *bytes.Buffer) error { _, err := b.Write(t.Raw); return err }
+
 type keyText int
 
 func (k keyText) MarshalText() ([]byte, error) { return []byte("k" + strconv.Itoa(int(k))), nil }
@@ -73,8 +85,8 @@ var fieldTypes = []reflect.Type{
 var stringable = map[reflect.Kind]bool{reflect.Bool: true, reflect.Int: true, reflect.Int8: true, reflect.Int64: true, reflect.Uint: true, reflect.Uint8: true, reflect.Uint64: true,
 	reflect.Float32: true, reflect.Float64: true, reflect.String: true}
 
-var fieldNames = []string{"A", "B", "C", "Dd", "E", "Ff", "G", "Name", "Value", "X1"}
-var tagNames = []string{"a", "b", "A", "name", "NAME", "x-y", "é", "dd", "", "value", "0"}
+var fieldNames = []string{"A", "B", "C", "Dd", "E", "Ff", "G", "Name", "Value", "X1", "Kk", "Sk"}
+var tagNames = []string{"a", "b", "A", "name", "NAME", "x-y", "é", "dd", "", "value", "0", "ks", "KS"}
 
 // genStructType builds a struct type with json tags: renamed, omitempty,
 // string, "-", case-colliding names, embedded structs and pointers to them.
@@ -220,6 +232,9 @@ func genTextFor(r *rand.Rand, t reflect.Type, depth int) string {
 				name = strings.ToUpper(name)
 			case 1:
 				name = strings.ToLower(name)
+			case 2:
+				// Unicode simple folding: the Kelvin sign folds to k, the long s to s
+				name = strings.NewReplacer("k", "\u212a", "K", "\u212a", "s", "\u017f", "S", "\u017f").Replace(name)
 			}
 			val := genTextFor(r, f.Type, depth-1)
 			if quoted && r.Intn(6) > 0 && val != "null" {
@@ -351,6 +366,9 @@ func genGo(r *rand.Rand, d int) any {
 		return &ptrRecv{S: "v"}
 	case n == 16 && r.Intn(10) == 0:
 		return badJSON{}
+	case n == 16 && r.Intn(6) == 0:
+		// types no encoder exists for: both packages must refuse
+		return []any{make(chan int), func() {}, complex(1, 2), map[bool]int{true: 1}}[r.Intn(4)]
 	case n <= 17 && d > 0:
 		k := r.Intn(4)
 		s := make([]any, k)
